@@ -55,3 +55,48 @@ contract(MU, "hash_checksums", props=["C16", "C05", "C06"],
         ], frame={"FileObj.content": [], "FileObj.writing": [], "FileObj.path": [], "FileObj.pos": [], "MemView.size": [],
                   "MemView.n": [], "MemView.src": [], "MemView.off": [], "HashObj.alg": []}),
     })
+
+# ---- paths: validators (C17) ------------------------------------------------------
+MFI = "sedpack/io/file_info.py"
+MSM = "sedpack/io/shard_file_metadata.py"
+_SAFE_V = "SAFE(v)"
+_IS_LIST_NAME = "PNAME(%s) == 'shards_list.json'"
+contract(MFI, "FileInfo.no_directory_traversal", props=["C17"], params={"v": "U"}, returns="U", modifies=[],
+    ensures=[("C17", "result == v"), ("C17", _SAFE_V)],
+    raises={"ValueError": [("C17", "not SAFE(v)")]})
+contract(MSM, "ShardsList.check_is_shards_list", props=["C17"], params={"v": "U"}, returns="U", modifies=[],
+    ensures=[("C17", "result == v"), ("C17", _SAFE_V), ("C17", _IS_LIST_NAME % "v")],
+    raises={"ValueError": [("C17", "not (SAFE(v) and %s)" % (_IS_LIST_NAME % "v"))]})
+contract(MSM, "ShardListInfo.check_is_shards_list", props=["C17"], params={"v": "ref:FileInfo"},
+    returns="ref:FileInfo", modifies=[],
+    ensures=[("C17", "result is v"), ("C17", _IS_LIST_NAME % "v.file_path")],
+    raises={"ValueError": [("C17", "not (%s)" % (_IS_LIST_NAME % "v.file_path"))]})
+
+# what pydantic guarantees for every object it validated (A-PYD): the
+# postconditions of the validators above, for the object and all nested models
+macro("VALID_FileInfo", ["x"], "SAFE(x.file_path)")
+macro("VALID_ShardInfo", ["x"], "forall(lambda i: implies(0 <= i and i < len(x.file_infos), VALID_FileInfo(x.file_infos[i])))")
+macro("VALID_ShardListInfo", ["x"], "VALID_FileInfo(x.shard_list_info_file) and " + (_IS_LIST_NAME % "x.shard_list_info_file.file_path"))
+macro("VALID_ShardsList", ["x"],
+      "SAFE(x.relative_path_self) and " + (_IS_LIST_NAME % "x.relative_path_self") +
+      " and forall(lambda i: implies(0 <= i and i < len(x.shard_files), VALID_ShardInfo(x.shard_files[i])))"
+      " and forall(lambda i: implies(0 <= i and i < len(x.children_shard_lists), VALID_ShardListInfo(x.children_shard_lists[i])))")
+
+# ---- safe_update_file ----------------------------------------------------------------------
+contract(MU, "safe_update_file", props=["C06", "C16", "C17", "C05"],
+    params={"dataset_root_path": "U", "relative_path": "U", "info": "U", "hashes": "list:U"},
+    returns="ref:FileInfo", modifies=["ghost:fs"], fs_root="dataset_root_path",
+    requires=["SAFE(relative_path)"],
+    ensures=[
+        # the target is complete and holds exactly `info`; it never was partial
+        ("C06", "dstate(PJOIN(dataset_root_path, relative_path)) == 2"),
+        ("C06", "disk_read(PJOIN(dataset_root_path, relative_path)) == info"),
+        # nothing else that was complete changed (only the fresh sibling came and went)
+        ("C06", "forall(lambda p: implies(p != PJOIN(dataset_root_path, relative_path) and old(dstate(p)) == 2, dstate(p) == 2 and disk_read(p) == old(disk_read(p))), p='U')"),
+        ("C17", "result.file_path == relative_path"),
+        # C16: the recorded checksums are the digests of what is now on disk, in the order of `hashes`
+        ("C16", "len(result.hash_checksums) == len(hashes)"),
+        ("C16", "forall(lambda j: implies(0 <= j and j < len(hashes), result.hash_checksums[j] == HEX(hashes[j], info, FLEN(info))))"),
+        "fresh(result)",
+    ],
+    raises={"ValueError": ["False"]})
